@@ -1066,3 +1066,24 @@ def _capitalize(ex, st, recv, pos, named, node):
 def _strip(ex, st, recv, pos, named, node):
     if recv.kind not in ('str', 'val') or pos: return None
     return [(st, ZV('str', str_strip(ex.as_str(st, recv))))]
+
+
+@method(ZV, 'pop')
+def _heapdict_pop(ex, st, recv, pos, named, node):
+    """mapping.pop(key[, default]) on a shared dict object (heap_dicts)"""
+    if not (ex.spec.heap_dicts and recv.kind == 'val'): return None
+    r = Val.ref(recv.z); arr = st.readz('st_items', r); key = ex.as_str(st, pos[0]); cell = arr[key]
+    outs = []
+    for s1, present in ex.fork(st, Opt.is_Some(cell), f'L{node.lineno}.pop'):
+        if present:
+            s1 = s1.copy(); s1.write('st_items', r, PDict(Store(arr, key, Opt.Absent))); outs.append((s1, ZV('val', Opt.v(cell))))
+        elif len(pos) > 1: outs.append((s1, pos[1]))
+        else: outs.append((s1, ex.raise_(s1, 'KeyError', where='method')))
+    return outs
+
+
+@method(ZV, 'keys')
+def _heapdict_keys(ex, st, recv, pos, named, node):
+    if not (ex.spec.heap_dicts and recv.kind == 'val'): return None
+    arr = st.readz('st_items', Val.ref(recv.z)); k = fresh('k', StringSort())
+    return [(st, PSet(z3.Lambda([k], Opt.is_Some(arr[k])), 'str'))]
